@@ -428,3 +428,32 @@ V("c03-kahn-no-leftover-check", "C03", "fire", UT, "    if A.sum() > 0:\n       
 V("c03-kahn-emit-child", "C03", "fire", UT, "        i = sinks.pop()\n        ordering.append(i)\n", "        i = sinks.pop()\n", more=[(UT, "                sinks.append(j)\n    # If A still contains", "                sinks.append(j)\n                ordering.append(j)\n    # If A still contains")], rule="KAHN.emit", what="sources never emitted")
 V("c03-kahn-transposed-removal", "C03", "fire", UT, "        for j in ch(i, A):\n            A[i, j] = 0\n", "        for j in ch(i, A):\n            A[j, i] = 0\n", rule="KAHN.remove-edge", what="removes the reverse entry")
 V("c03-silent-kahn-any", "C03", "silent", UT, "    if A.sum() > 0:\n        raise ValueError(\"The given graph is not a DAG\")\n    else:\n        return ordering", "    if A.any():\n        raise ValueError(\"The given graph is not a DAG\")\n    return ordering", what="any() for sum() > 0, no else")
+
+# ------------------------------------------------------------------------------- C05 (seed-inspired)
+V("c05-marginal-fastpath", "C05", "fire", ND, "        X = np.atleast_1d(X)\n        # Compute marginal mean/variance\n", "        X = np.atleast_1d(X)\n        if len(X) == self.p:\n            return NormalDistribution(self.mean, self.covariance)\n        # Compute marginal mean/variance\n",
+  rule="FORMULA.marginal", what="all-variables fast path ignores the requested order")
+V("c05-x-cast-to-mean-dtype", "C05", "fire", ND, "        x = np.atleast_1d(x)\n", "        x = np.atleast_1d(np.asarray(x, dtype=self.mean.dtype))\n", rule="DTYPE", what="conditioning values truncated for integer means")
+V("c05-silent-x-float", "C05", "silent", ND, "        x = np.atleast_1d(x)\n", "        x = np.atleast_1d(np.asarray(x, dtype=float))\n", what="explicit float cast of x")
+
+# ------------------------------------------------------------------------------- seed-inspired (C15, C18, C08, C01, C02)
+V("c15-sep-truthy-node", "C15", "fire", UT, "                if set(path) & S == set():\n", "                if not any(s for s in S if s in path):\n", rule="TRUTHY", what="truth value of node labels: node 0 never blocks")
+V("c15-silent-sep-any", "C15", "silent", UT, "                if set(path) & S == set():\n", "                if not any(s in path for s in S):\n", what="equivalent membership formulation")
+V("c15-silent-sep-disjoint", "C15", "silent", UT, "                if set(path) & S == set():\n", "                if set(path).isdisjoint(S):\n", what="isdisjoint")
+V("c18-for-loop-zero-request", "C18", "fire", UT, "    i = 0\n    while (supergraph.sum() - A.sum()) < no_edges and i < len(edges):\n        next_supergraph = supergraph.copy()\n        next_supergraph[edges[i]] = 1\n        i += 1\n        if is_dag(next_supergraph):\n            supergraph = next_supergraph\n",
+  "    added = 0\n    for edge in edges:\n        next_supergraph = supergraph.copy()\n        next_supergraph[edge] = 1\n        if is_dag(next_supergraph):\n            supergraph = next_supergraph\n            added += 1\n            if added == no_edges:\n                break\n",
+  rule="LOOP.count-guard", what="for-loop rewrite stops only after an addition: no_edges = 0 keeps adding")
+V("c18-silent-for-loop", "C18", "silent", UT, "    i = 0\n    while (supergraph.sum() - A.sum()) < no_edges and i < len(edges):\n        next_supergraph = supergraph.copy()\n        next_supergraph[edges[i]] = 1\n        i += 1\n        if is_dag(next_supergraph):\n            supergraph = next_supergraph\n",
+  "    added = 0\n    for edge in edges:\n        if added == no_edges:\n            break\n        next_supergraph = supergraph.copy()\n        next_supergraph[edge] = 1\n        if is_dag(next_supergraph):\n            supergraph = next_supergraph\n            added += 1\n",
+  what="correct for-loop rewrite with the count check at the top of each round")
+V("c08-order-indexed-by-node", "C08", "fire", UT, "        x = sort(unlabelled_parents_y, order)[0]\n", "        x = unlabelled_parents_y[np.argmin(np.array(order)[unlabelled_parents_y])]\n", rule="INDEX.ordering", what="permutation used as its inverse")
+V("c01-merged-dict-noise-wins", "C01", "fire", LG, NOISE_BLOCK + "\n        # Perform do interventions. Note that they take preference\n        # i.e. \"override\" shift and noise interventions\n" + DO_BLOCK,
+  "        new_noise = dict(do_interventions or {})\n        new_noise.update(noise_interventions or {})\n        if new_noise:\n            new_noise = _parse_interventions(new_noise)\n            targets = new_noise[:, 0].astype(int)\n            means[targets] = new_noise[:, 1]\n            variances[targets] = new_noise[:, 2]\n        if do_interventions:\n            targets = np.array(list(do_interventions.keys())).astype(int)\n            W[:, targets] = 0\n",
+  rule="CASES", what="merged dict: noise parameters win on a shared do/noise target")
+V("c01-silent-merged-dict", "C01", "silent", LG, NOISE_BLOCK + "\n        # Perform do interventions. Note that they take preference\n        # i.e. \"override\" shift and noise interventions\n" + DO_BLOCK,
+  "        new_noise = dict(noise_interventions or {})\n        new_noise.update(do_interventions or {})\n        if new_noise:\n            new_noise = _parse_interventions(new_noise)\n            targets = new_noise[:, 0].astype(int)\n            means[targets] = new_noise[:, 1]\n            variances[targets] = new_noise[:, 2]\n        if do_interventions:\n            targets = np.array(list(do_interventions.keys())).astype(int)\n            W[:, targets] = 0\n",
+  what="merged dict with do overriding noise: same outcome table")
+V("c01-unique-targets", "C01", "fire", LG, "            targets = do_interventions[:, 0].astype(int)\n", "            targets = np.unique(do_interventions[:, 0].astype(int))\n", rule="CASES", what="targets sorted, parameters not")
+V("c01-result-type-dtype", "C01", "fire", LG, "        variances = self.variances.astype(float)\n        means = self.means.astype(float)\n", "        dtype = np.result_type(self.W, self.means, self.variances)\n        variances = self.variances.astype(dtype)\n        means = self.means.astype(dtype)\n", rule="DTYPE", what="common dtype of the model arrays: all-integer models truncate")
+V("c02-cancelling-source-shortcut", "C02", "fire", AN, "                assignment = np.transpose(self.assignments[i](X[:, self.A[:, i] != 0]))\n", "                if self.A[:, i].sum() == 0:\n                    assignment = 0\n                else:\n                    assignment = np.transpose(self.assignments[i](X[:, self.A[:, i] != 0]))\n", rule="PAT", what="parentless shortcut decided by the signed column sum")
+V("c02-set-order-parents", "C02", "fire", AN, "                assignment = np.transpose(self.assignments[i](X[:, self.A[:, i] != 0]))\n", "                parents = list(utils.pa(i, self.A))\n                assignment = np.transpose(self.assignments[i](X[:, parents]))\n", rule="CASES", what="parent columns in set-iteration order")
+V("c10-pattern-chain-test", "C10", "fire", UT, "    return (A == chain_graph(p)).all()", "    return ((A != 0) == (chain_graph(p) != 0)).all()", rule="PAT", what="pattern-based chain test lets weighted chains into the value-comparing shortcut")
